@@ -76,10 +76,11 @@ class SubProcStream(Stream):
 
     def corpus(self):
         return [
-            # witness 1: queued jobs-submit dropped by process() while stopping
+            # regression case (finding fixed in 2237225): queued jobs-submit taken off the queue by
+            # process() while stopping must get its callback (ret_code 999)
             {"size": 1, "kind": "stopping", "events": [
                 ["put", 0, "sleep", 1], ["put", 1, "true", 1], ["proc"], ["stop"], ["timeout", 0], ["proc"], ["proc"]]},
-            # witness 2: any queued command drained by terminate()
+            # regression case (same fix): every queued command drained by terminate() gets its callback
             {"size": 1, "kind": "terminate", "events": [
                 ["put", 0, "sleep", 0], ["put", 1, "true", 0], ["proc"], ["term"]]},
             # put after close / after set_stopping gets its callback at once (999)
@@ -352,10 +353,12 @@ META = {
         "set_stopping/close/terminate): the running list never exceeds the pool size; no jobs-submit command is "
         "launched once stopping (and stopping never resets); conservation — the commands put so far are exactly "
         "(queue + running + called back + dropped), so with distinct commands nobody gets two callbacks and, when the "
-        "pool is done, every command got exactly one callback unless it was dropped; drops happen only in process() "
-        "(queued jobs-submit while stopping) and terminate() (whole queue). 'Exactly one callback' itself is REFUTED "
-        "for the code as it is (two findings with witnesses) and proved for the proposed fix. The model is tied to "
-        "the real SubProcPool by differential scenarios with real processes, compared in Coq."),
+        "pool is done (nothing queued or running), every command got exactly one callback (c42_one_callback, for the code "
+        "after fix 2237225 which passes the callbacks when process()/terminate() take a command off the queue while "
+        "stopping; the refutations for the pre-fix variant are kept, labelled as such, and their witnesses are regression "
+        "cases). Still open: commands RUNNING at terminate() are killed but usually not seen to exit, so they get no "
+        "callback (known finding; outside the theorem by its running=[] hypothesis). The model is tied to the real "
+        "SubProcPool by differential scenarios with real processes, compared in Coq."),
     "level_note": (
         "Hand model; which processes have exited when polled is environment input taken from the real run; "
         "callback_255 not modelled; concurrency = length of the pool's runnings list (not an OS-level process count). "
